@@ -4,4 +4,12 @@ fn main() {
     println!("cargo:rustc-env=VERGEN_COMMIT_DATE=UNKNOWN");
     println!("cargo:rustc-env=VERGEN_TARGET_TRIPLE=x");
     println!("cargo:rustc-check-cfg=cfg(hlorenzi_customasm_verif)");
+    println!("cargo:rerun-if-env-changed=VERIF_REPO");
+    // binaries that need the (private) command-line driver include this file:
+    //   include!(concat!(env!("OUT_DIR"), "/driver_mod.rs"));
+    let repo = std::env::var("VERIF_REPO").unwrap_or("/repo".to_string());
+    let out = std::env::var("OUT_DIR").unwrap();
+    std::fs::write(format!("{}/driver_mod.rs", out),
+        format!("#[allow(dead_code)]\n#[path = \"{}/src/driver.rs\"]\npub mod driver;\n", repo)).unwrap();
+    println!("cargo:rerun-if-changed={}/src/driver.rs", repo);
 }
